@@ -656,11 +656,13 @@ func (c *CVMContract) execute(st engine.State, params engine.CallParams) ([]byte
 
 			// Run the input to get the contract code.
 			// NOTE: no need to copy 'input' as per Call contract.
+			// The child's events are held back until it is known to have succeeded.
+			childSink := newFrameEventSink(st.EventSink)
 			ret, callErr := c.Contract(input).Call(
 				engine.State{
 					CallFrame:  childCallFrame,
 					Blockchain: st.Blockchain,
-					EventSink:  st.EventSink,
+					EventSink:  childSink,
 				},
 				engine.CallParams{
 					Origin: params.Origin,
@@ -679,6 +681,7 @@ func (c *CVMContract) execute(st engine.State, params engine.CallParams) ([]byte
 				// Update the account with its initialised contract code
 				maybe.PushError(engine.InitChildCode(childCallFrame, newAccountAddress, params.Callee, ret))
 				maybe.PushError(childCallFrame.Sync())
+				maybe.PushError(childSink.flush())
 				stack.PushAddress(newAccountAddress)
 			}
 
@@ -708,8 +711,13 @@ func (c *CVMContract) execute(st engine.State, params engine.CallParams) ([]byte
 			c.debugf(" => %v\n", target)
 
 			gasBeforeCall := new(big.Int).Set(params.Gas)
+			// The callee's events (and those of its own callees) reach this frame's sink only if the call succeeds:
+			// a reverted or failed inner call leaves no event behind even when the outer call goes on to succeed.
+			childSink := newFrameEventSink(st.EventSink)
+			childSt := st
+			childSt.EventSink = childSink
 			var err error
-			returnData, err = engine.CallFromSite(st, c.externalDispatcher, params, engine.CallParams{
+			returnData, err = engine.CallFromSite(childSt, c.externalDispatcher, params, engine.CallParams{
 				CallType: callTypeFromOpCode(op),
 				Callee:   target,
 				Input:    memory.Read(inOffset, inSize),
@@ -724,6 +732,7 @@ func (c *CVMContract) execute(st engine.State, params engine.CallParams) ([]byte
 
 			} else {
 				stack.Push(One256)
+				maybe.PushError(childSink.flush())
 			}
 
 			code := errors.GetCode(err)
